@@ -262,6 +262,58 @@ fn main() {
       "let g = a.lock(key); //~ERR",
       "let g = a.lock(ThreadKey::get().unwrap());")
 
+route("C14", "forged_key_via_borrowmut", ["E0277"], """
+use std::borrow::{Borrow, BorrowMut};
+#[derive(Clone, Copy)]
+struct Forged;
+impl Borrow<ThreadKey> for Forged { fn borrow(&self) -> &ThreadKey { loop {} } }
+impl BorrowMut<ThreadKey> for Forged { fn borrow_mut(&mut self) -> &mut ThreadKey { loop {} } }
+fn main() {
+    let a = Mutex::new(0);
+    let b = Mutex::new(0);
+    let mut key = ThreadKey::get().unwrap();
+    a.scoped_lock(&mut key, |x| {
+        @@
+    });
+    println!("WITNESS: a forged, copyable key was accepted by scoped_lock while the real key was lent out");
+    std::process::exit(1);
+}
+""",
+      "b.scoped_lock(Forged, |y| *y += *x); //~ERR",
+      "*x += 1; if true { std::process::exit(0); }")
+
+route("C14", "forged_key_boxed", ["E0277"], """
+fn main() {
+    let a = Mutex::new(0);
+    let key = Box::new(ThreadKey::get().unwrap());
+    @@
+}
+""",
+      "a.scoped_lock(key, |x| *x += 1); //~ERR",
+      "a.scoped_lock(*key, |x| *x += 1);")
+
+for gname, setup, field, twin in [
+    ("collection_guard_inner", "let m = LockCollection::new((Mutex::new(0), Mutex::new(1))); let g = m.lock(ThreadKey::get().unwrap());", "guard", "drop(g);"),
+    ("mutex_guard_inner", "let m = Mutex::new(0); let g = m.lock(ThreadKey::get().unwrap());", "mutex", "drop(g);"),
+    ("read_guard_inner", "let m = RwLock::new(0); let g = m.read(ThreadKey::get().unwrap());", "rwlock", "drop(g);"),
+    ("write_guard_inner", "let m = RwLock::new(0); let g = m.write(ThreadKey::get().unwrap());", "rwlock", "drop(g);"),
+    ("write_guard_key", "let m = RwLock::new(0); let g = m.write(ThreadKey::get().unwrap());", "thread_key", "drop(g);"),
+    ("poison_guard_inner", "let m = Poisonable::new(Mutex::new(0)); let g = m.lock(ThreadKey::get().unwrap()).unwrap();", "guard", "drop(g);"),
+    ("poison_guard_key", "let m = Poisonable::new(Mutex::new(0)); let g = m.lock(ThreadKey::get().unwrap()).unwrap();", "key", "drop(g);"),
+]:
+    route("C14", "guard_field_moved_out_" + gname, ["E0616"], """
+fn main() {
+    %s
+    @@
+    if ThreadKey::get().is_some() {
+        println!("WITNESS: the guard was taken apart: the key is obtainable again while the lock is still held");
+        std::process::exit(1);
+    }
+}
+""" % setup,
+          "let stolen = g.%s; //~ERR" % field,
+          twin + " if true { return; }")
+
 for gname, setup, send in [
     ("mutex_guard", "let m = Mutex::new(0); let g = m.lock(key);", "g"),
     ("rwlock_read_guard", "let m = RwLock::new(0); let g = m.read(key);", "g"),
@@ -730,6 +782,11 @@ NEWS = [
     ("boxed_from_refs", "let c = BoxedLockCollection::from((&a, &a));", "let c = BoxedLockCollection::from((Mutex::new(1), Mutex::new(2)));"),
     ("boxed_new_nested_ref_collection", "let inner = RefLockCollection::try_new(&a).unwrap(); let c = BoxedLockCollection::new((inner, &a));", "let c = BoxedLockCollection::new((OwnedLockCollection::new(Mutex::new(1)), Mutex::new(2)));"),
     ("boxed_new_poisonable_ref", "let c = BoxedLockCollection::new((Poisonable::new(&a), Poisonable::new(&a)));", "let c = BoxedLockCollection::new((Poisonable::new(Mutex::new(1)), Poisonable::new(Mutex::new(2))));"),
+    ("boxed_new_mut_ref_of_ref_array", "let mut d = [&a, &a]; let c = BoxedLockCollection::new(&mut d);", "let mut d = [Mutex::new(1), Mutex::new(2)]; let c = BoxedLockCollection::new(&mut d);"),
+    ("boxed_new_tuple_of_mut_refs_to_refs", "let (mut r1, mut r2) = (&a, &a); let c = BoxedLockCollection::new((&mut r1, &mut r2));", "let (mut r1, mut r2) = (Mutex::new(1), Mutex::new(2)); let c = BoxedLockCollection::new((&mut r1, &mut r2));"),
+    ("owned_new_mut_ref_of_ref_vec", "let mut d = vec![&a, &a]; let c = OwnedLockCollection::new(&mut d);", "let mut d = vec![Mutex::new(1), Mutex::new(2)]; let c = OwnedLockCollection::new(&mut d);"),
+    ("boxed_new_two_ref_collections", "let data = (Mutex::new(1), Mutex::new(2)); let c = BoxedLockCollection::new((RefLockCollection::new(&data), RefLockCollection::new(&data)));", "let c = BoxedLockCollection::new((OwnedLockCollection::new((Mutex::new(1), Mutex::new(2))), OwnedLockCollection::new((Mutex::new(3),))));"),
+    ("retrying_new_mut_ref_of_boxed_refs", "let mut inner = BoxedLockCollection::try_new([&a]).unwrap(); let c = RetryingLockCollection::new((&mut inner, Mutex::new(3)));", "let mut inner = BoxedLockCollection::new([Mutex::new(1)]); let c = RetryingLockCollection::new((&mut inner, Mutex::new(3)));"),
     ("owned_from_iter_refs", "let c: OwnedLockCollection<Vec<&Mutex<i32>>> = vec![&a, &a].into_iter().collect();", "let c: OwnedLockCollection<Vec<Mutex<i32>>> = vec![Mutex::new(1), Mutex::new(2)].into_iter().collect();"),
 ]
 for name, bad, twin in NEWS:
@@ -836,6 +893,18 @@ impl<T: ?Sized> FallbackSend for ProbeSend<T> {}
 impl<T: ?Sized> FallbackSync for ProbeSync<T> {}
 impl<T: ?Sized + Send> ProbeSend<T> { fn is_send(&self) -> bool { true } }
 impl<T: ?Sized + Sync> ProbeSync<T> { fn is_sync(&self) -> bool { true } }
+struct ProbeOwned<T>(PhantomData<T>);
+trait FallbackOwned { fn is_owned(&self) -> bool { false } }
+impl<T> FallbackOwned for ProbeOwned<T> {}
+impl<T: happylock::lockable::OwnedLockable> ProbeOwned<T> { fn is_owned(&self) -> bool { true } }
+struct ProbeKey<T>(PhantomData<T>);
+trait FallbackKey { fn is_key(&self) -> bool { false } }
+impl<T> FallbackKey for ProbeKey<T> {}
+impl<T: happylock::Keyable> ProbeKey<T> { fn is_key(&self) -> bool { true } }
+#[derive(Clone, Copy)]
+struct Forged;
+impl std::borrow::Borrow<happylock::ThreadKey> for Forged { fn borrow(&self) -> &happylock::ThreadKey { loop {} } }
+impl std::borrow::BorrowMut<happylock::ThreadKey> for Forged { fn borrow_mut(&mut self) -> &mut happylock::ThreadKey { loop {} } }
 
 macro_rules! probe {
     ($name:expr, $payload:expr, $hl:ty, $std:ty) => {
@@ -858,6 +927,34 @@ fn main() {
             hl2 = re.sub(r"\bP\b", pty, hl)
             std2 = re.sub(r"\bP\b", pty, std)
             lines.append('    probe!("%s", "%s", %s, %s);' % (name, pname, hl2, std2))
+    M = "happylock::Mutex<i32>"
+    R = "happylock::RwLock<i32>"
+    C = "happylock::collection::"
+    owned_yes = [M, R, "(%s, %s)" % (M, R), "[%s; 2]" % M, "Vec<%s>" % M, "Box<[%s]>" % M, "&'static mut %s" % M,
+                 "&'static mut (%s, %s)" % (M, R), "happylock::Poisonable<%s>" % M, C + "BoxedLockCollection<(%s,)>" % M,
+                 C + "OwnedLockCollection<(%s,)>" % M, C + "RetryingLockCollection<(%s,)>" % M,
+                 C + "BoxedLockCollection<Vec<happylock::Poisonable<%s>>>" % R, "&'static mut " + C + "OwnedLockCollection<[%s; 2]>" % M]
+    owned_no = ["&'static %s" % M, "(&'static %s, &'static %s)" % (M, M), "[&'static %s; 2]" % M, "Vec<&'static %s>" % M,
+                "Box<[&'static %s]>" % R, "&'static mut &'static %s" % M, "&'static mut (&'static %s,)" % M,
+                "&'static mut [&'static %s; 2]" % M, "&'static mut Vec<&'static %s>" % R, "happylock::Poisonable<&'static %s>" % M,
+                C + "RefLockCollection<'static, (%s,)>" % M, C + "RefLockCollection<'static, Vec<&'static %s>>" % M,
+                C + "BoxedLockCollection<(&'static %s,)>" % M, C + "BoxedLockCollection<&'static (%s,)>" % M,
+                C + "RetryingLockCollection<[&'static %s; 2]>" % M, C + "RetryingLockCollection<&'static (%s,)>" % M,
+                "(%s, &'static %s)" % (M, M), "&'static mut " + C + "BoxedLockCollection<[&'static %s; 2]>" % M,
+                "&'static mut " + C + "RefLockCollection<'static, (%s,)>" % M,
+                "(" + C + "RefLockCollection<'static, (%s,)>, " % M + C + "RefLockCollection<'static, (%s,)>)" % M]
+    key_yes = ["happylock::ThreadKey", "&'static mut happylock::ThreadKey"]
+    key_no = ["&'static happylock::ThreadKey", "Box<happylock::ThreadKey>", "&'static mut &'static mut happylock::ThreadKey",
+              "Option<happylock::ThreadKey>", "()", "Forged", "std::rc::Rc<happylock::ThreadKey>",
+              "std::cell::RefMut<'static, happylock::ThreadKey>", "&'static mut Box<happylock::ThreadKey>", "&'static mut Forged"]
+    for t in owned_yes:
+        lines.append('    println!("OWNED|%s|true|{}", ProbeOwned::<%s>(PhantomData).is_owned());' % (t, t))
+    for t in owned_no:
+        lines.append('    println!("OWNED|%s|false|{}", ProbeOwned::<%s>(PhantomData).is_owned());' % (t, t))
+    for t in key_yes:
+        lines.append('    println!("KEY|%s|true|{}", ProbeKey::<%s>(PhantomData).is_key());' % (t, t))
+    for t in key_no:
+        lines.append('    println!("KEY|%s|false|{}", ProbeKey::<%s>(PhantomData).is_key());' % (t, t))
     lines.append("}")
     with open(os.path.join(d, "matrix.rs"), "w") as f:
         f.write("\n".join(lines) + "\n")
